@@ -449,6 +449,8 @@ var c11kinds = []c11kind{
 	{"B", `{"ip":"10.0.0.2","mac":"02:00:00:00:00:02","vendor":""}`, true, [4]byte{10, 0, 0, 2}, []byte{0x02, 0, 0, 0, 0, 0x02}},
 	{"A16", `{"ip":"::ffff:10.0.0.1","mac":"0a:0a:0a:0a:0a:0a","vendor":"x"}`, true, [4]byte{10, 0, 0, 1}, []byte{0x0a, 0x0a, 0x0a, 0x0a, 0x0a, 0x0a}},
 	{"Aextra", `{"ip":"10.0.0.1","mac":"0c:0c:0c:0c:0c:0c","vendor":"v","extra":{"a":[1,2,{"b":null}]},"n":1.5e3,"t":true}`, true, [4]byte{10, 0, 0, 1}, []byte{0x0c, 0x0c, 0x0c, 0x0c, 0x0c, 0x0c}},
+	// unknown fields whose names differ from the documented keys only in case: JSON object keys are case sensitive
+	{"Acase", `{"ip":"10.0.0.1","mac":"0d:0d:0d:0d:0d:0d","vendor":"v","MAC":"de:ad:be:ef:00:01","Ip":"10.0.0.2","IP":"10.0.0.3"}`, true, [4]byte{10, 0, 0, 1}, []byte{0x0d, 0x0d, 0x0d, 0x0d, 0x0d, 0x0d}},
 	{"nomac", `{"ip":"10.0.0.1","vendor":"v"}`, false, [4]byte{10, 0, 0, 1}, nil},
 	{"badmac", `{"ip":"10.0.0.1","mac":"zz:zz:zz:zz:zz:zz","vendor":"v"}`, false, [4]byte{10, 0, 0, 1}, nil},
 	{"badip", `{"ip":"10.0.0.300","mac":"0e:0e:0e:0e:0e:0e","vendor":"v"}`, false, [4]byte{}, nil},
@@ -608,7 +610,7 @@ func (h *c11h) files() {
 
 func verifC11(c *drv.Ctx) {
 	c.R.Rule = "case = (a) one ARP frame (sender address x sender MAC x op x padding; MACs: 00.., ff.., a locally administered one and one per OUI prefix of gopacket's vendor table), " +
-		"(a') a sequence of printed lines over 4 addresses x 5 MACs, (b) a cache file = sequence of line kinds {A, A with other MAC, B, ::ffff: spelling of A, A with unknown fields, " +
+		"(a') a sequence of printed lines over 4 addresses x 5 MACs, (b) a cache file = sequence of line kinds {A, A with other MAC, B, ::ffff: spelling of A, A with unknown fields, A with unknown fields named MAC/Ip/IP, " +
 		"no mac, bad mac, bad ip, blank, invalid JSON} x final newline present/absent; every case is a different input; " +
 		"non-trivial = frame whose record carries a vendor text / sequence in which an address repeats / file of more than one line"
 	if err := zzref.JSONSelfTest(); err != nil {
